@@ -3,7 +3,7 @@ CONSTANTS
   MaxWrites = 3
   MaxFaults = 1
   MaxCrashes = 2
-  ClassSel = "sched"
+  ClassSel = "sched3"
   Defects = {}
   Emit = FALSE
 INVARIANTS TypeOK RecoveredEqualsCrashFree
